@@ -4,14 +4,16 @@ from __future__ import annotations
 import ast
 from typing import Any
 
-from ..astutil import Locals, call_name, constructs_error, error_names, norm, role_anon, short, where
+from ..astutil import Locals, call_name, constructs_error, error_names, norm, role_anon, short, stmt_of, where
 from ..core import PKG, Report
 from ..pyindex import dotted
 
 LEVEL = ("hash-seed clause: every place where the ORDER of a set-typed value is observed (Python for/comprehension/join/"
          "list()/next(iter())/pop(); Jinja for/join/list/first) is enumerated from the typed program (abstract interpreter "
-         "types for Python, template interpreter for Jinja); each is sorted, a proven singleton, feeds an order-insensitive "
-         "update, or is a frozen diagnostics-only case. Environment-dependent sources are enumerated. Permutation clause "
+         "types for Python, template interpreter for Jinja) in the whole package, the document model included; each is sorted, a "
+         "proven singleton, feeds an order-insensitive update, or does - followed through the functions it calls - nothing but keyed "
+         "idempotent updates, text for an error object, and yields (a generator that yields in set order is an unordered iterable "
+         "itself, judged at its consumers). Environment-dependent sources are enumerated. Permutation clause "
          "(narrow): aggregates are sorted, worklist rounds reset their errors and let any item of a round ask for the next one, suffix tests on reference paths are "
          "separator-anchored, re-registrations of shared classes are monotone, late-filled fields of copied "
          "classes are read by templates only on the rendered object itself, context-less imported templates keep no macro-written "
@@ -19,15 +21,9 @@ LEVEL = ("hash-seed clause: every place where the ORDER of a set-typed value is 
          "is emitted for a class that may be declared several times reads only what the re-declaration test compares, and order-"
          "normalised where that test ignores order.")
 
-# unsorted iterations over sets whose order can only reach diagnostics text or idempotent removals (confirmed by reading).  A site is
-# identified by its role - the function and the set-typed attribute whose value the loop traverses (also through a local) - not by
-# the text of the loop header
-FROZEN = {
-    ("parser.properties._process_model_errors", "roots"):
-        "order reaches only the text of the error detail (list of removed references) and idempotent removals",
-    ("parser.properties._propogate_removal", "dependencies"):
-        "order reaches only the text of the error detail and idempotent removals (pop/del guarded by membership)",
-}
+# calls (by node identity) of generator functions of the package whose yield order follows the traversal of a set: such a call is
+# an unordered iterable exactly like the set it passes on (filled by _unordered_generators for the tree under analysis)
+_UNORDERED_CALLS: set[int] = set()
 ENV_SOURCES = ("time.time", "time.monotonic", "datetime.now", "datetime.utcnow", "datetime.today", "date.today", "random.",
                "uuid.uuid1", "uuid.uuid4", "os.getpid", "os.listdir", "os.scandir", "glob.glob", "os.environ", "os.getenv",
                "socket.gethostname", "getpass.getuser", "secrets.")
@@ -88,6 +84,8 @@ def _may_be_set(e: ast.AST | None, it: Any) -> bool:
     if isinstance(e, (ast.IfExp, ast.BoolOp)):
         # either operand alone decides what is traversed: `s if c else []` traverses the set s whenever c holds
         return any(_may_be_set(v, it) for v in ([e.body, e.orelse] if isinstance(e, ast.IfExp) else e.values))
+    if isinstance(e, ast.Call) and id(e) in _UNORDERED_CALLS:
+        return True  # a generator that yields while it traverses a set hands the set's order on
     t = _types_of(e, it)
     if isinstance(e, ast.Call) and ((isinstance(e.func, ast.Attribute) and e.func.attr == "get" and len(e.args) == 2) or
                                     (call_name(e) == "getattr" and len(e.args) == 3)):
@@ -115,8 +113,13 @@ def _insensitive_body(body: list[ast.stmt]) -> bool:
 def run(rep: Report, ctx: Any) -> str:
     ix = ctx.py
     it, ji = ctx.flow
-    rep.rule("R12.1", "no observation of the order of a set reaches generated output: sorted / singleton / order-insensitive / "
-                      "diagnostics-only (frozen); no environment-dependent source is used")
+    rep.rule("R12.1", "no observation of the order of a set - anywhere in the package, the document model and its validators included - "
+                      "reaches generated output: it is sorted / a singleton / consumed order-blind, or everything that is done per element "
+                      "(followed into the called functions, recursion included) is a keyed idempotent update (set.add/update/discard, "
+                      "setdefault, pop with default, del / pop under an established membership), text stored into an error object, or a "
+                      "yield - and a generator that yields while it traverses a set is itself an unordered iterable whose every traversal "
+                      "is an instance of this rule; a value made from the order may end as text in an error object only; no "
+                      "environment-dependent source is used")
     rep.rule("R12.2", "aggregates are emitted through a sort; worklist rounds keep what they record for a re-queued item (its error, the re-queue "
                       "entry) from the last round only, and what decides about "
                       "another round is bound monotonically per item (one constant, or accumulated from itself) and can be moved by an item; "
@@ -150,9 +153,9 @@ def run(rep: Report, ctx: Any) -> str:
 
     n_py = 0
     cfgs: dict[str, Any] = {}
+    order = _OrderEffects(ix, it)
+    unordered = _unordered_generators(ix, it, order)
     for f in ix.all_functions:
-        if f.module.name.startswith(f"{PKG}.schema"):
-            continue
         parent = {id(ch): p_ for p_ in ast.walk(f.node) for ch in ast.iter_child_nodes(p_)}
         for n in ast.walk(f.node):
             for expr, desc, node in _order_observations(n, f.node, parent):
@@ -163,18 +166,28 @@ def run(rep: Report, ctx: Any) -> str:
                 if _feeds_order_blind(node, parent, it):
                     rep.ok("R12.1", key, "set", "feeds a set / sorted() / order-blind aggregate: order not observed")
                     continue
-                frozen = _frozen_site(f, node, expr)
-                if frozen is not None:
-                    rep.ok("R12.1", key, "frozen", frozen, nontrivial=False)
-                    continue
                 if isinstance(node, (ast.For, ast.AsyncFor)) and _insensitive_body(node.body):
                     rep.ok("R12.1", key, "set", "loop body performs only keyed / idempotent updates")
+                    continue
+                if isinstance(node, (ast.For, ast.AsyncFor)) and order.query(f, node.body):
+                    rep.ok("R12.1", key, "effects", "everything the loop body does (followed into the functions it calls) is a keyed idempotent "
+                           "update, text put into an error object, or a yield" +
+                           (" - the generator's callers are judged as traversals of an unordered iterable" if f.qual in unordered else ""))
+                    continue
+                if isinstance(node, ast.YieldFrom) and f.qual in unordered:
+                    rep.ok("R12.1", key, "passed on", "the order is passed on to the consumers of this generator, each judged as a traversal "
+                           "of an unordered iterable")
                     continue
                 if _singleton_guard(f, node, expr, parent, cfgs):
                     rep.ok("R12.1", key, "set", "singleton by a dominating len(...) test")
                     continue
                 if isinstance(node, ast.JoinedStr) and _only_in_error(f.node, node):
                     rep.ok("R12.1", key, "set", "formatted into an error detail only")
+                    continue
+                if isinstance(node, ast.expr) and _only_into_diagnostics(f, node, parent, it) and \
+                        order.query_calls(f, [c for c in ast.walk(node) if isinstance(c, ast.Call)]):
+                    rep.ok("R12.1", key, "diagnostics", "what is made of the traversal is text that ends in an error object and nowhere else; "
+                           "what the traversal does on the way is keyed and idempotent")
                     continue
                 rep.fail("R12.1", key, f"the iteration order of the set `{norm(expr)}` is observed here and is not sorted, a singleton, "
                                        "or an order-insensitive update: output may depend on PYTHONHASHSEED", where(f, node),
@@ -840,17 +853,285 @@ def _slash_anchored(a: ast.AST, fn: ast.AST, refs: set[str], depth: int = 3) -> 
     return False
 
 
-def _frozen_site(f: Any, node: ast.AST, expr: ast.expr) -> str | None:
-    from ..astutil import resolved_text
-    import re
+# ---- R12.1: what the order of a traversal can reach ---------------------------------------------------------------------------
+PURE_BUILTINS = {"isinstance", "issubclass", "len", "str", "repr", "set", "frozenset", "sorted", "list", "tuple", "dict", "getattr", "hasattr",
+                 "bool", "int", "float", "any", "all", "min", "max", "type", "cast", "enumerate", "zip", "callable"}
+PURE_METHODS = {"get", "join", "format", "items", "keys", "values", "startswith", "endswith", "copy", "strip", "lstrip", "rstrip", "lower",
+                "upper", "split", "union", "intersection", "difference", "issubset", "issuperset", "isdisjoint", "count"}
+# set.add / set.update / set.discard / dict.setdefault: keyed, and the same whatever was done before by the other elements
+KEYED_IDEMPOTENT = {"add", "update", "discard", "setdefault"}
 
-    if not isinstance(node, (ast.For, ast.AsyncFor)):
-        return None
-    txt = resolved_text(expr, f.node)
-    for (fn, attr), why in FROZEN.items():
-        if short(f) == fn and re.search(r"\." + attr + r"\b", txt):
-            return why
-    return None
+
+def _is_error_obj(e: ast.AST, g: Any, it: Any) -> bool:
+    """e evaluates to an error object of the parser (by type, by construction, by isinstance narrowing, by annotation)"""
+    from ..astutil import ERROR_CLASSES
+
+    av = it.node_av.get(id(e))
+    if av is not None and av.types and all(t.rsplit(".", 1)[-1] in ERROR_CLASSES or t == "None" for t in av.types) and \
+            any(t != "None" for t in av.types):
+        return True
+    if isinstance(e, ast.Name):
+        if e.id in error_names(g.node):
+            return True
+        ann = next((a.annotation for a in g.params if a.arg == e.id), None)
+        return ann is not None and any(isinstance(x, (ast.Name, ast.Attribute)) and (dotted(x) or "").rsplit(".", 1)[-1] in ERROR_CLASSES
+                                       for x in ast.walk(ann))
+    return False
+
+
+class _OrderEffects:
+    """Decides for a list of statements that is executed once per element of an unordered collection whether the order of the
+    elements can be seen afterwards.  It cannot when everything the statements do - followed into every function of the package they
+    call, recursion included - is of one of these kinds:
+      * a keyed idempotent update: set.add / update / discard, dict.setdefault, `d.pop(k, default)`, and `del d[k]` / `d.pop(k)` on
+        paths on which `k in d` has been established (under the assumption `k not in d` the statement is unreachable) or inside a
+        `try` that absorbs the KeyError: the same keys are gone / present in the end whatever the order;
+      * text stored into an attribute of an error object (diagnostics; C12 restricts its permutation clause to documents without them,
+        and the hash-seed clause compares generated trees);
+      * a `yield`: the order is then the order of the generator's results - the generator's calls are unordered iterables and every
+        traversal of one is an instance of this rule on its own;
+      * a binding of a local of a called function (it dies with the call), a valueless control statement, a call without effects.
+    Everything else (appending to a list, a keyed store of a value, a `break` / `return` out of the traversal, a local of the traversing
+    function that outlives the element, a call that cannot be resolved) lets the order through."""
+
+    def __init__(self, ix: Any, it: Any) -> None:
+        self.ix, self.it = ix, it
+        self.cfgs: dict[str, Any] = {}
+        self.bad: set[str] = set()      # functions that let the order through (under whatever assumption about the callers)
+        self.good: set[str] = set()     # functions found harmless by a query that succeeded as a whole
+        self.trial: set[str] = set()    # ... by the query that is running (harmless if the functions on its stack are)
+
+    def callees(self, g: Any, c: ast.Call) -> list[Any]:
+        out: list[Any] = []
+        if isinstance(c.func, ast.Attribute):
+            for q in sorted(_class_types(self.it.node_av.get(id(c.func.value)), self.ix)):
+                m = self.ix.find_method(self.ix.classes[q], c.func.attr)
+                if m is not None and m not in out:
+                    out.append(m)
+        if not out and isinstance(c.func, (ast.Name, ast.Attribute)):
+            r = self.ix.resolve(g.module, call_name(c))
+            if r is not None and r[0] == "func":
+                out.append(r[1])
+        return out
+
+    def guarded(self, g: Any, st: ast.stmt, key: ast.AST, box: ast.AST) -> bool:
+        """st cannot be reached while `key in box` is false (decided on the tests on the way, in any form and branch order), or a
+        KeyError raised by it is absorbed by an enclosing try"""
+        from ..astutil import cfg_of
+        from ..cfg import ENTRY
+
+        k, x = norm(key), norm(box)
+        for t in ast.walk(g.node):
+            if isinstance(t, ast.Try) and any(s is st for b in t.body for s in ast.walk(b)):
+                names = [dotted(e) or "" for h in t.handlers for e in ((h.type.elts if isinstance(h.type, ast.Tuple) else [h.type]) if h.type else [])]
+                if any(h.type is None for h in t.handlers) or any(n_.rsplit(".", 1)[-1] in ("KeyError", "LookupError", "Exception") for n_ in names):
+                    return True
+
+        def val(t: ast.expr) -> bool | None:
+            if isinstance(t, ast.UnaryOp) and isinstance(t.op, ast.Not):
+                v = val(t.operand)
+                return None if v is None else not v
+            if isinstance(t, ast.BoolOp):
+                vs = [val(v) for v in t.values]
+                if isinstance(t.op, ast.And):
+                    return False if any(v is False for v in vs) else (True if all(v is True for v in vs) else None)
+                return True if any(v is True for v in vs) else (False if all(v is False for v in vs) else None)
+            if isinstance(t, ast.Compare) and len(t.ops) == 1 and norm(t.left) == k and norm(t.comparators[0]) == x:
+                return False if isinstance(t.ops[0], ast.In) else True if isinstance(t.ops[0], ast.NotIn) else None
+            return None
+
+        cfg = cfg_of(g, self.cfgs)
+        seen: set[int] = {id(ENTRY)}
+        stack: list[object] = [ENTRY]
+        while stack:
+            n = stack.pop()
+            succs = list(cfg.succ.get(n, ()))
+            if isinstance(n, (ast.If, ast.While)):
+                v = val(n.test)
+                if v is True:
+                    succs = [s_ for s_ in succs if s_ is n.body[0]]
+                elif v is False:
+                    succs = [s_ for s_ in succs if s_ is not n.body[0]]
+            elif isinstance(n, ast.Assert) and val(n.test) is False:
+                succs = []
+            for s_ in succs:
+                if s_ is st:
+                    return False
+                if id(s_) not in seen:
+                    seen.add(id(s_))
+                    stack.append(s_)
+        return True
+
+    def call_ok(self, g: Any, c: ast.Call, st: ast.stmt | None, stack: frozenset[str]) -> bool:
+        hs = self.callees(g, c)
+        if hs:
+            return all(self.callee_ok(h, stack) for h in hs)
+        r = self.ix.resolve(g.module, call_name(c)) if isinstance(c.func, (ast.Name, ast.Attribute)) else None
+        if r is not None and r[0] == "class":
+            return True  # constructing an object
+        if isinstance(c.func, ast.Name):
+            return c.func.id in PURE_BUILTINS
+        if isinstance(c.func, ast.Attribute):
+            a = c.func.attr
+            if a in KEYED_IDEMPOTENT or a in PURE_METHODS:
+                return True
+            if a == "pop" and len(c.args) == 2:
+                return True
+            if a == "pop" and len(c.args) == 1 and st is not None:
+                return self.guarded(g, st, c.args[0], c.func.value)
+        return False
+
+    def callee_ok(self, h: Any, stack: frozenset[str]) -> bool:
+        if h.qual in stack or h.qual in self.good or h.qual in self.trial:
+            return True
+        if h.qual in self.bad:
+            return False
+        ok = self.benign(h, h.node.body, False, stack | {h.qual})
+        (self.trial if ok else self.bad).add(h.qual)
+        return ok
+
+    def query(self, g: Any, stmts: list[ast.stmt]) -> bool:
+        """the statements, executed once per element by g itself"""
+        self.trial = set()
+        ok = self.benign(g, stmts, True, frozenset())
+        if ok:
+            self.good |= self.trial
+        self.trial = set()
+        return ok
+
+    def query_calls(self, g: Any, calls: list[ast.Call]) -> bool:
+        """the calls made while g traverses an unordered iterable inside an expression"""
+        self.trial = set()
+        ok = all(self.call_ok(g, c, stmt_of(g.node, c), frozenset()) for c in calls)
+        if ok:
+            self.good |= self.trial
+        self.trial = set()
+        return ok
+
+    def benign(self, g: Any, stmts: list[ast.stmt], owner: bool, stack: frozenset[str]) -> bool:
+        from ..cfg import walk_own
+
+        for st in stmts:
+            if isinstance(st, (ast.FunctionDef, ast.AsyncFunctionDef, ast.ClassDef, ast.With, ast.AsyncWith, ast.Raise, ast.Global, ast.Nonlocal)):
+                return False
+            if isinstance(st, (ast.Break, ast.Return)) and owner:
+                return False  # the traversal stops at an element: which one is the order
+            if not all(self.call_ok(g, c, st, stack) for c in walk_own(st) if isinstance(c, ast.Call)):
+                return False
+            if any(isinstance(n, ast.NamedExpr) for n in walk_own(st)) and owner:
+                return False
+            if isinstance(st, (ast.Assign, ast.AnnAssign, ast.AugAssign)):
+                leaves: list[ast.AST] = list(st.targets if isinstance(st, ast.Assign) else [st.target])
+                while leaves:
+                    leaf = leaves.pop()
+                    if isinstance(leaf, (ast.Tuple, ast.List)):
+                        leaves += leaf.elts
+                    elif isinstance(leaf, ast.Starred):
+                        leaves.append(leaf.value)
+                    elif isinstance(leaf, ast.Name):
+                        if owner:
+                            return False  # a local of the traversing function keeps what the last element left in it
+                    elif not (isinstance(leaf, ast.Attribute) and _is_error_obj(leaf.value, g, self.it)):
+                        return False  # a store into an object that is not an error: the last element wins
+            elif isinstance(st, ast.Delete):
+                for t in st.targets:
+                    if not (isinstance(t, ast.Subscript) and self.guarded(g, st, t.slice, t.value)):
+                        return False
+            elif isinstance(st, (ast.If, ast.For, ast.AsyncFor, ast.While, ast.Try, ast.Match)):
+                subs: list[list[ast.stmt]] = [getattr(st, fld) for fld in ("body", "orelse", "finalbody") if getattr(st, fld, None)]
+                subs += [h.body for h in getattr(st, "handlers", [])] + [c.body for c in getattr(st, "cases", [])]
+                # the loops nested in the traversal are the traversal's business as long as they do not leave it
+                if not all(self.benign(g, sub, owner, stack) for sub in subs):
+                    return False
+            elif not isinstance(st, (ast.Expr, ast.Pass, ast.Continue, ast.Break, ast.Return, ast.Assert)):
+                return False
+        return True
+
+
+def _unordered_generators(ix: Any, it: Any, order: "_OrderEffects") -> set[str]:
+    """generator functions whose results come in the order in which a set is traversed: a `yield` inside a loop over a value that may
+    be a set, or `yield from` such a value - where a call of a generator that is already in this class counts as such a value (least
+    fixed point).  Registers the calls of these generators in _UNORDERED_CALLS, which makes every traversal of one an instance of R12.1"""
+    _UNORDERED_CALLS.clear()
+    gens = [f for f in ix.all_functions if any(isinstance(n, (ast.Yield, ast.YieldFrom)) for n in _own_nodes(f.node))]
+    calls = [(f, c) for f in ix.all_functions for c in ast.walk(f.node) if isinstance(c, ast.Call)] if gens else []
+    found: set[str] = set()
+    changed = True
+    while changed:
+        changed = False
+        for g in gens:
+            if g.qual in found:
+                continue
+            own = list(_own_nodes(g.node))
+            hit = any(isinstance(n, ast.YieldFrom) and _may_be_set(n.value, it) for n in own) or \
+                any(isinstance(n, (ast.For, ast.AsyncFor)) and _may_be_set(n.iter, it) and
+                    any(isinstance(y, (ast.Yield, ast.YieldFrom)) for b in n.body for y in ast.walk(b)) for n in own)
+            if hit:
+                found.add(g.qual)
+                changed = True
+                for f, c in calls:
+                    if any(h.qual == g.qual for h in order.callees(f, c)):
+                        _UNORDERED_CALLS.add(id(c))
+    return found
+
+
+TEXT_METHODS = ("join", "format", "strip", "lstrip", "rstrip", "lower", "upper", "title", "capitalize", "replace")
+
+
+def _only_into_diagnostics(f: Any, node: ast.AST, parent: dict[int, ast.AST], it: Any, depth: int = 3) -> bool:
+    """the value computed at `node` ends as text in an error object and nowhere else: it is put together (join, f-string, +, %,
+    format, a comprehension over it) inside the call that builds the error, or stored into an attribute of an error object, or kept in
+    a local whose every use - other than asking whether it is empty - goes the same way"""
+    from ..astutil import ERROR_CLASSES, ERROR_ONLY_HELPERS
+
+    ch: ast.AST = node
+    while id(ch) in parent:
+        par = parent[id(ch)]
+        if isinstance(par, ast.Call):
+            last = call_name(par).rsplit(".", 1)[-1]
+            if last in (ERROR_CLASSES | ERROR_ONLY_HELPERS):
+                return True
+            text = isinstance(par.func, ast.Attribute) and par.func.attr in TEXT_METHODS and (ch is par.func or ch in par.args or
+                                                                                               ch in par.keywords)
+            if not (text or (last in ("str", "repr", "list", "tuple", "sorted") and ch in par.args)):
+                return False
+        elif isinstance(par, ast.Attribute) and isinstance(parent.get(id(par)), ast.Call) and parent[id(par)].func is par and par.attr in TEXT_METHODS:
+            pass  # "<text>".join(...) / <text>.format(...): the receiver of a text method
+        elif isinstance(par, (ast.JoinedStr, ast.FormattedValue, ast.GeneratorExp, ast.ListComp, ast.comprehension, ast.Starred, ast.List,
+                              ast.Tuple, ast.keyword)):
+            pass
+        elif isinstance(par, ast.BinOp) and isinstance(par.op, (ast.Add, ast.Mod)):
+            pass
+        elif isinstance(par, ast.IfExp) and ch is not par.test:
+            pass
+        elif isinstance(par, ast.BoolOp):
+            pass
+        elif isinstance(par, ast.stmt):
+            if isinstance(par, ast.Expr):
+                return True
+            if isinstance(par, (ast.Assign, ast.AnnAssign, ast.AugAssign)) and ch is par.value:
+                targets = par.targets if isinstance(par, ast.Assign) else [par.target]
+                for t in targets:
+                    if isinstance(t, ast.Attribute) and _is_error_obj(t.value, f, it):
+                        continue
+                    if isinstance(t, ast.Name) and depth > 0:
+                        for u in ast.walk(f.node):
+                            if isinstance(u, ast.Name) and u.id == t.id and isinstance(u.ctx, ast.Load):
+                                up = parent.get(id(u))
+                                if isinstance(up, ast.UnaryOp) and isinstance(up.op, ast.Not):
+                                    u, up = up, parent.get(id(up))  # type: ignore[assignment]
+                                if isinstance(up, (ast.If, ast.While, ast.IfExp)) and up.test is u:
+                                    continue  # empty or not: the same in every order
+                                if not _only_into_diagnostics(f, u, parent, it, depth - 1):
+                                    return False
+                        continue
+                    return False
+                return True
+            return False
+        else:
+            return False
+        ch = par
+    return False
 
 
 def _len_test(t: ast.expr, x: str, k: int) -> bool | None:
